@@ -48,6 +48,7 @@ const (
 	classMustExpand  = "mustexpand-nil"           // TemplatedRegexp.MustExpand returns nil when expansion against rule data fails
 	classLinkRewrite = "link-rewrite-nil-request" // rule/link: http.NewRequest error ignored after uri rewrite
 	classFailoverURI = "failover-uri-unparsed"    // promapi doRequest: url.Parse error ignored for (unvalidated) failover / discovery URIs
+	classLabelNoMap  = "label-recording-no-labels" // rule/label on a recording rule without labels inside a group with labels
 )
 
 type FileCase struct {
@@ -260,7 +261,7 @@ func runBinary(bin string, c Case, withCfg bool) (crashed bool, status int, stde
 		}
 		args = append(args, filepath.Join("r", f.Name))
 	}
-	ctx, cancel := context.WithTimeout(context.Background(), 90*time.Second)
+	ctx, cancel := context.WithTimeout(context.Background(), time.Duration(vstat.EnvInt("VERIF_C18_BIN_TIMEOUT", 60))*time.Second)
 	defer cancel()
 	cmd := exec.CommandContext(ctx, bin, args...)
 	cmd.Dir = dir
@@ -270,6 +271,10 @@ func runBinary(bin string, c Case, withCfg bool) (crashed bool, status int, stde
 	cmd.Stdout = nil
 	runErr := cmd.Run()
 	if ctx.Err() != nil {
+		if d := os.Getenv("VERIF_C18_TIMEOUT_DUMP"); d != "" {
+			// diagnostics only: keep the case that did not finish
+			_ = os.WriteFile(filepath.Join(d, fmt.Sprintf("timeout-%d-%d.hcl", os.Getpid(), time.Now().UnixNano())), []byte(c.HCL+"\n### "+c.Files[0].Name+"\n"+c.Files[0].Text), 0o644)
+		}
 		return false, 0, eb.String(), fmt.Errorf("timeout")
 	}
 	status = 0
@@ -289,7 +294,9 @@ func trimStack(s string, n int) string {
 	lines := strings.Split(s, "\n")
 	var keep []string
 	for _, l := range lines {
-		if strings.Contains(l, "level=") {
+		if strings.Contains(l, "level=") || strings.Contains(l, "/pgregory.net/rapid") || strings.Contains(l, "pgregory.net/rapid.") ||
+			strings.Contains(l, "/src/runtime/") || strings.Contains(l, "/src/testing/") || strings.HasPrefix(l, "runtime/debug.Stack") ||
+			strings.HasPrefix(l, "testing.tRunner") || strings.Contains(l, "/src/net/http/") || strings.Contains(l, "/src/regexp/") {
 			continue
 		}
 		keep = append(keep, l)
@@ -310,7 +317,7 @@ func run(c Case, bin string) (out outcome, err error) {
 	}
 	r := runInProcess(c, c.HCL, &out)
 	if r.panicked {
-		out.stack, out.where = r.stack, r.where
+		out.stack, out.where = r.panicText+"\n"+r.stack, r.where
 		base := runInProcess(c, "", nil)
 		if base.panicked {
 			out.notConfig = true
@@ -360,6 +367,9 @@ func knownClass(c Case, out outcome) string {
 		return classLinkRewrite
 	case strings.Contains(st, "promapi.(*Prometheus).doRequest") && strings.Contains(st, "nil pointer dereference"):
 		return classFailoverURI
+	case strings.Contains(st, "checks.LabelCheck.checkRecordingRule") && strings.Contains(st, "nil pointer dereference") &&
+		!strings.Contains(st, "regexp.(*Regexp).") && strings.Contains(c.HCL, "label "):
+		return classLabelNoMap
 	}
 	return ""
 }
@@ -394,6 +404,18 @@ func genCase(t *rapid.T, rec *vstat.Recorder, known map[string]string, forceBin 
 	}
 	cfg := pintcfg.Gen(t, o)
 	doc := pintcfg.GenHostileDoc(t)
+	if excluded(classLabelNoMap, known) {
+		// exclusion switch: no group-level labels on a group that has a recording rule without labels of its own
+		for gi := range doc.Groups {
+			g := &doc.Groups[gi]
+			for _, r := range g.Rules {
+				if !r.Alert && len(r.Labels) == 0 && len(g.Labels) > 0 {
+					g.Labels = nil
+					rec.Count("excluded_by_construction:"+classLabelNoMap, 1)
+				}
+			}
+		}
+	}
 	c := Case{HCL: cfg.HCL}
 	c.Files = []FileCase{{Name: rapid.SampledFrom(fileNames).Draw(t, "filename"), Text: pintcfg.RenderDoc(doc)}}
 	c.Command = rapid.SampledFrom([]string{"lint", "lint", "ci", "watch"}).Draw(t, "command")
